@@ -440,7 +440,7 @@ func senGen(args []string) {
 			emit(t, sopts(ci), []pcfg{pcfgOf(ci)}, "num")
 		}
 	}
-	for _, f := range append([]float64{0, math.Copysign(0, -1)}, fltLeaves...) {
+	for _, f := range append(append([]float64{0, math.Copysign(0, -1)}, fltLeaves...), wholeFloats...) {
 		for ci, t := range []M{aFlt(f), aArr(aFlt(f), aFlt(f)), aObj("k", aFlt(f))} {
 			emit(t, sopts(ci), []pcfg{pcfgOf(ci + 16)}, "num")
 		}
